@@ -23,7 +23,10 @@ type item struct {
 	chunk  int
 	failAt int  // -1: never
 	cancel bool // give up because closeCh is closed, after failAt bytes (or at once)
-	closer func()
+	// closeAfter: every byte is written and the writer reports success, but closeCh is closed just before it
+	// returns (the index starts closing as the write completes): success with the exact file, or failure with no file
+	closeAfter bool
+	closer     func()
 }
 
 var errItem = errors.New("probe: item writer failed")
@@ -57,6 +60,9 @@ func (it *item) WriteTo(w io.Writer, closeCh chan struct{}) (int64, error) {
 		if err != nil {
 			return n, err
 		}
+	}
+	if it.closeAfter {
+		it.closer()
 	}
 	return n, nil
 }
@@ -96,6 +102,7 @@ func main() {
 		{"errfull", func(s int) int { return s }, false},
 		{"cancel0", func(int) int { return 0 }, true},
 		{"cancelmid", func(s int) int { return s / 2 }, true},
+		{"closeafter", func(int) int { return -1 }, false},
 	}
 	n := 0
 	for _, kind := range []string{index.ItemKindSegment, index.ItemKindSnapshot} {
@@ -120,7 +127,7 @@ func main() {
 						}
 					}
 					closeCh := make(chan struct{})
-					it := &item{size: size, chunk: []int{buf, 1000, 7 + rng.Intn(5000)}[rng.Intn(3)], failAt: fl.failAt(size), cancel: fl.cancel}
+					it := &item{size: size, chunk: []int{buf, 1000, 7 + rng.Intn(5000)}[rng.Intn(3)], failAt: fl.failAt(size), cancel: fl.cancel, closeAfter: fl.name == "closeafter"}
 					it.closer = func() { close(closeCh) }
 					mark(*dir, fmt.Sprintf("call.%d.%d.%s.%s.%s", size, preLen, kind[1:], pre, fl.name))
 					err := d.Persist(kind, id, it, closeCh)
